@@ -248,6 +248,11 @@ func c04Verify(raw, key []byte) (outcome, vkey, detail string) {
 	if p := catch(func() { err2 = stun.MessageIntegrity(key).Check(m) }); p != "" || (err2 == nil) != (err == nil) {
 		return "", "check-not-idempotent", fmt.Sprintf("MessageIntegrity.Check = %v, after MarshalBinary and GobEncode of the same Message = %v %s: %x", err, err2, p, clip(raw))
 	}
+	// a receiver runs the fingerprint check and the integrity check on the same Message, in either order, and the first
+	// may well fail (RFC 5389 section 7.3: FINGERPRINT first): the integrity verdict is the same after it
+	if p := catch(func() { _ = stun.Fingerprint.Check(m); err2 = stun.MessageIntegrity(key).Check(m) }); p != "" || (err2 == nil) != (err == nil) {
+		return "", "check-after-fingerprint-check", fmt.Sprintf("MessageIntegrity.Check = %v, after Fingerprint.Check on the same Message = %v %s: %x", err, err2, p, clip(raw))
+	}
 	// the same check from inside a ForEach callback (ForEach hands the callback a window of the attribute list)
 	var ferr error
 	visited := false
